@@ -244,7 +244,9 @@ def Editor.wrapOpts (ed : Editor α) (width : Int) (o : Options α) : R (Editor 
       let text := (Block.mk ls o.lineSep false).join
       let ss : Int := gLen cx sepStart
       let se : Int := gLen cx sepEnd
-      pure [if se > 0 then gSub cx text ss (-se) else gSub cx text ss (gLen cx text)]) o
+      let text := if se > 0 then gSub cx text ss (-se) else gSub cx text ss (gLen cx text)
+      -- a paragraph that ends with the line separator keeps it, as outside of paragraph mode
+      pure [if o.lineSep.isSuffixOf para then text ++ o.lineSep else text]) o
   else
     let ls ← wrapLines cx ed.text width o.lineSep
     let t := (Block.mk ls o.lineSep false).join
